@@ -1,7 +1,8 @@
 (* Model/Producer.v — the sequencer ("aggregator") side of block/manager.go:
    NewManager / getInitialState (start-up), publishBlockInternal, retrieveBatch, execCreateBlock,
    execApplyBlock, execValidate (= Types.validate), State.NextState (= Types.next_state), plus the
-   on-disk cache files of pkg/cache (LoadFromDisk at start, SaveToDisk at shutdown).
+   on-disk cache files of pkg/cache (LoadFromDisk at start, SaveToDisk at shutdown: the file operations
+   create / write / rename of saveMapGob, a crash after any of them or INSIDE the write of a file).
    Shared by C01 (valid chain / never wedges) and C04 (crash recovery).
    Models the tree AFTER the repairs a489023 (an empty batch older than the last block is skipped),
    46e0134 (state written before the store height), d2502c2 (cache files written atomically) and
@@ -227,11 +228,70 @@ Definition step (c : cfg) (m : img) (v : vol) (s : seqresp) (e : execresp) : are
       end
   end.
 
+(* ---- the cache directory: pkg/cache/cache.go SaveToDisk / saveMapGob / LoadFromDisk --------------- *)
+(* Manager.SaveCache (manager.go:1087) writes eight files, f = 0..7 in this order: header cache
+   items_by_height, items_by_hash, hashes, da_included (cache.go:163-198), then the same four of the data
+   cache; saveMapGob (cache.go:88-113) writes each to the temporary name <file>.tmp and renames it. *)
+Inductive fname := FFinal (f : nat) | FTmp (f : nat).
+
+Inductive fop :=
+| FCreate (n : fname)       (* os.Create(n), cache.go:92: n exists and is EMPTY (an existing file is truncated) *)
+| FWrite (n : fname)        (* encoder.Encode + Sync + Close, cache.go:97-108: n holds a complete gob stream.  The only
+                               operation that is not atomic: a process that dies INSIDE it leaves a strict prefix *)
+| FRename (a b : fname).    (* os.Rename(a, b), cache.go:109: atomic; b gets the content of a, a is gone *)
+
+Definition save_file (f : nat) : list fop := [FCreate (FTmp f); FWrite (FTmp f); FRename (FTmp f) (FFinal f)].
+Definition n_files : nat := 8.
+Definition save_ops : list fop := flat_map save_file (seq 0 n_files).
+
+(* The state of the directory = the names that hold a PARTIAL stream: an empty file or a strict prefix of a gob
+   stream, i.e. neither absent nor complete.  loadMapGob (cache.go:117-135) accepts an absent file (empty map)
+   and a complete one; it fails on a partial one (EOF / unexpected EOF), and LoadFromDisk reads the final names
+   only.  The content of a complete file does not influence block production and is not modelled. *)
+Definition fname_eqb (a b : fname) : bool :=
+  match a, b with
+  | FFinal x, FFinal y | FTmp x, FTmp y => Nat.eqb x y
+  | _, _ => false
+  end.
+Definition f_rm (n : fname) (d : list fname) : list fname := filter (fun x => negb (fname_eqb x n)) d.
+Definition f_mem (n : fname) (d : list fname) : bool := existsb (fname_eqb n) d.
+
+Definition apply_fop (d : list fname) (o : fop) : list fname :=
+  match o with
+  | FCreate n => n :: f_rm n d
+  | FWrite n => f_rm n d
+  | FRename a b => if f_mem a d then b :: f_rm b (f_rm a d) else f_rm b (f_rm a d)
+  end.
+Definition apply_fops (d : list fname) (ops : list fop) : list fname := fold_left apply_fop ops d.
+
+(* the process dies INSIDE operation o: a write leaves a strict prefix (any number of bytes, possibly none) of
+   the stream under the name it was writing to; create and rename are single system calls: not done *)
+Definition torn_fop (d : list fname) (o : fop) : list fname :=
+  match o with FWrite n => n :: f_rm n d | _ => d end.
+
+(* where a shutdown is cut *)
+Inductive cutpt :=
+| CutAfter (k : nat)            (* the process dies after k file operations of SaveCache completed *)
+| CutInside (k : nat) (b : N).  (* ... after k operations and INSIDE operation k+1: if that is the write of a gob stream, a strict
+                                   prefix of b bytes of it is on disk.  The model does not depend on b: EVERY strict prefix is a
+                                   partial file (tied to the code by the harness, which cuts at every byte) *)
+Definition cut_done (cp : cutpt) : nat := match cp with CutAfter k | CutInside k _ => k end.
+Definition cut_dir (d : list fname) (ops : list fop) (cp : cutpt) : list fname :=
+  let d' := apply_fops d (firstn (cut_done cp) ops) in
+  match cp with
+  | CutAfter _ => d'
+  | CutInside k _ => match nth_error ops k with Some o => torn_fop d' o | None => d' end
+  end.
+
+Definition is_tmp (n : fname) : bool := match n with FTmp _ => true | FFinal _ => false end.
+(* LoadCache succeeds: no file under a FINAL name is partial (temporary files are never read) *)
+Definition dir_ok (d : list fname) : bool := forallb is_tmp d.
+
 (* ---- the machine: durable image, volatile state, cache files, observer's logs ------------------ *)
 Record mach := {
   img_of : img;
   vol_of : option vol;
-  bad_files : list nat;                             (* cache files (0..7) that are neither absent nor complete; only [ITamper] makes one *)
+  bad_files : list fname;                           (* the cache directory: names (final or temporary) that hold a partial stream *)
   g_inits : list root;                              (* roots InitChain returned *)
   g_built : list (N * list tx * Z);                 (* (height, txs, timestamp) of every block built (genesis or from a batch) *)
   g_execs : list (N * list tx * Z * root * root)    (* successful ExecuteTxs calls: height, txs, time, previous root, returned root *)
@@ -240,16 +300,17 @@ Record mach := {
 Definition fresh : mach :=
   {| img_of := []; vol_of := None; bad_files := []; g_inits := []; g_built := []; g_execs := [] |}.
 
-Definition files_ok (st : mach) : bool := match bad_files st with [] => true | _ => false end.
+Definition files_ok (st : mach) : bool := dir_ok (bad_files st).
 
 Inductive act := ABoot (ic : option root) | AStep (s : seqresp) (e : execresp).
 
 Inductive item :=
 | IRun (a : act)                (* the action runs to completion (a boot discards any running process first) *)
 | ICrash (a : act) (k : nat)    (* the process dies after [k] atomic writes of the action *)
-| IStop (cut : option nat)      (* shutdown: SaveCache writes each of the 8 cache files to a temporary file and renames it over the
-                                   target (fix d2502c2); [Some j] = the process dies after j files were renamed (a partly written
-                                   temporary file may stay behind): every cache file is old-complete or new-complete *)
+| IStop (cut : option cutpt)    (* shutdown: SaveCache performs [save_ops] (each of the 8 cache files: create the temporary file, write it,
+                                   rename it over the target; fix d2502c2); [Some cp] = the process dies at the cut point cp: after any
+                                   number of these operations, or INSIDE the write of a file (a prefix of its bytes is on disk) — on the
+                                   first save into an empty directory as well as on any later one (the directory is part of the state) *)
 | ITamper (f : nat).            (* NOT a crash: cache file f is truncated in place by hand (malformed stream) *)
 
 Definition not_running (st : mach) : ares :=
@@ -278,7 +339,8 @@ Record iout := {
   o_res : outcome;
   o_call : option ecall;
   o_req : option N;
-  o_ws : list wr          (* the atomic writes that reached the datastore *)
+  o_ws : list wr;         (* the atomic writes that reached the datastore *)
+  o_fops : list fop       (* the operations on cache files that completed *)
 }.
 
 Definition exec_item (c : cfg) (st : mach) (i : item) : mach * iout :=
@@ -288,29 +350,30 @@ Definition exec_item (c : cfg) (st : mach) (i : item) : mach * iout :=
       ({| img_of := apply_writes (img_of st) (a_ws r); vol_of := a_vol r; bad_files := bad_files st;
           g_inits := log_opt (g_inits st) (a_init r); g_built := log_opt (g_built st) (a_built r);
           g_execs := log_execs (g_execs st) r a |},
-       {| o_res := a_out r; o_call := a_call r; o_req := a_req r; o_ws := a_ws r |})
+       {| o_res := a_out r; o_call := a_call r; o_req := a_req r; o_ws := a_ws r; o_fops := [] |})
   | ICrash a k =>
       let r := do_act c st a in
       ({| img_of := crash_after k (img_of st) (a_ws r); vol_of := None; bad_files := bad_files st;
           g_inits := log_opt (g_inits st) (a_init r); g_built := log_opt (g_built st) (a_built r);
           g_execs := log_execs (g_execs st) r a |},
-       {| o_res := OCrashed; o_call := None; o_req := None; o_ws := firstn k (a_ws r) |})
+       {| o_res := OCrashed; o_call := None; o_req := None; o_ws := firstn k (a_ws r); o_fops := [] |})
   | IStop cut =>
       match vol_of st with
-      | None => (st, {| o_res := ONotRunning; o_call := None; o_req := None; o_ws := [] |})
+      | None => (st, {| o_res := ONotRunning; o_call := None; o_req := None; o_ws := []; o_fops := [] |})
       | Some _ =>
           ({| img_of := img_of st; vol_of := None;
               bad_files := match cut with
-                           | None => []                                             (* all eight files rewritten *)
-                           | Some j => filter (fun f => Nat.leb j f) (bad_files st)  (* files 0..j-1 rewritten *)
+                           | None => apply_fops (bad_files st) save_ops             (* all eight files rewritten *)
+                           | Some cp => cut_dir (bad_files st) save_ops cp          (* cut after / inside an operation *)
                            end;
               g_inits := g_inits st; g_built := g_built st; g_execs := g_execs st |},
-           {| o_res := OStopped; o_call := None; o_req := None; o_ws := [] |})
+           {| o_res := OStopped; o_call := None; o_req := None; o_ws := [];
+              o_fops := match cut with None => save_ops | Some cp => firstn (cut_done cp) save_ops end |})
       end
   | ITamper f =>
-      ({| img_of := img_of st; vol_of := vol_of st; bad_files := f :: bad_files st;
+      ({| img_of := img_of st; vol_of := vol_of st; bad_files := FFinal f :: bad_files st;
           g_inits := g_inits st; g_built := g_built st; g_execs := g_execs st |},
-       {| o_res := OTampered; o_call := None; o_req := None; o_ws := [] |})
+       {| o_res := OTampered; o_call := None; o_req := None; o_ws := []; o_fops := [] |})
   end.
 
 Fixpoint run_from (c : cfg) (st : mach) (h : list item) : mach * list iout :=
